@@ -82,6 +82,9 @@ def matmul_1d_operand(c):
     return c["op"] == "matmul" and any(len(s) == 1 for s in c["shapes"])
 
 
+PREDS = dict(c16_trace_diagonal=trace_diagonal, c16_matmul_1d_operand=matmul_1d_operand)
+
+
 def run(tier, seed):
     ck = Check("C16", tier, seed)
     quick = tier == "quick"
